@@ -35,6 +35,9 @@ CHECKS = {
  "C12": dict(cat="exploration", ref="DESIGN.md §6 C12",
    technique="deterministic simulation with fault injection: handshake packets lost/duplicated/reordered/delayed and forged replies under seeded poll cadences; oracles = per-address event grammar automaton, handshake accounting model, timer model, queue bound via accessor",
    text="Handshake stress (loss to 40 %, duplication to 20 %, 0-300 ms latency with full jitter, poll periods 1-400 ms, stray SyncReplies with never-sent nonces, never-drained sessions), silences within 200 ms of the notify delay and of the timeout, and 60-second quiet pairs. Per remote address the drained events must follow Synchronizing 1..4, Synchronized, (Interrupted Resumed)*, [Interrupted], [Disconnected]; Synchronized must come exactly with the fifth reply that matches a request really sent to that address; Running iff every address is through; advance_frame says NotSynchronized iff not Running; timers fire in the poll the model predicts; the event queue never exceeds 100."),
+ "C06": dict(cat="exploration", ref="DESIGN.md §6 C06",
+   technique="deterministic simulation with fault injection: spectators with seeded tick rates, pauses and catch-up settings behind lossy/reordering links; oracle = host's confirmed timeline per frame, catch-up rule, error justification, twin run without spectators",
+   text="Hosts of 1-3 peers with 1-2 spectators whose tick rate is 0.25x-4x the host's, that pause for up to 3 s, with every max_frames_behind/catchup_speed setting, behind links that lose, duplicate and reorder packets; in some runs the host's other player dies. The n-th frame a spectator advances must carry the host's confirmed inputs for frame n (Disconnected exactly where the host says so), without gap or repeat, never beyond the host's confirmed frame; more than one frame per call only under the catch-up rule; PredictionThreshold only with nothing buffered; SpectatorTooFarBehind only when the host has delivered frame n+60 or later. Twin run without the spectators: the players' sealed timelines are identical."),
 }
 NOT_YET = "not claimed at this commit: the check for this property is still under construction (see DESIGN.md §6 for the planned check)"
 NA = {
